@@ -3,14 +3,15 @@
 \* result, its supertypes and the immutability frame are checked at every step.
 EXTENDS HTypeHeap, TLC, Json, IOUtils
 Cases == JsonDeserialize(IOEnv.TRACE_FILE).cases
-VARIABLES t, l, results, answers
-TInit == t \in DOMAIN Cases /\ l = 0 /\ results = <<>> /\ answers = [q \in {} |-> TRUE]
+VARIABLES t, l, results, answers, vvs
+TInit == t \in DOMAIN Cases /\ l = 0 /\ results = <<>> /\ answers = [q \in {} |-> TRUE] /\ vvs = <<>>
 Step(cs, i) == cs.steps[i]
 \* the sigma of a recorded step is a JSON object (record); an empty one is the empty function
 TNext == /\ l < Len(Cases[t].steps) /\ l' = l + 1 /\ t' = t
          /\ LET o == Step(Cases[t], l + 1) IN
             /\ results' = Append(results, IF o.res = <<>> THEN Opaque ELSE
                                           IF Expected(Cases[t].ct, results, o) = Opaque THEN Opaque ELSE o.res[1])
+            /\ vvs' = Append(vvs, {<<o.vv[i][1], o.vv[i][2]>> : i \in DOMAIN o.vv})     \* (variable, variance) pairs occurring in the result
             /\ answers' = IF o.op = "issub" /\ o.answer # <<>> /\ <<results[o.r], results[o.r2]>> \notin DOMAIN answers
                           THEN [q \in DOMAIN answers \cup {<<results[o.r], results[o.r2]>>} |->
                                    IF q \in DOMAIN answers THEN answers[q] ELSE o.answer[1]]
@@ -18,14 +19,20 @@ TNext == /\ l < Len(Cases[t].steps) /\ l' = l + 1 /\ t' = t
 Range1(s) == {s[j] : j \in DOMAIN s}
 \* clauses violated by the step that led to the current state (evaluated on the pre-state `prev`)
 BadStep(cs, i, prev, prevAnswers) ==
-  LET o == Step(cs, i)  CT == cs.ct IN
-  {cl \in {"NoException", "ResultIsSubstitution", "SupertypesSubstituted", "SubstLaws", "VariableFree", "Immutable", "MeaningKept"} :
+  LET o == Step(cs, i)  CT == cs.ct  vv == {<<o.vv[j][1], o.vv[j][2]>> : j \in DOMAIN o.vv} IN
+  {cl \in {"NoException", "ResultIsSubstitution", "SupertypesSubstituted", "SubstLaws", "VariableFree", "Immutable", "MeaningKept",
+           "EmptySubstEqual", "VarianceKept"} :
      CASE cl = "NoException"  -> o.exc # ""
        [] cl = "ResultIsSubstitution" -> o.exc = "" /\ o.res # <<>> /\ ~ResultOK(CT, prev, o, o.res[1])
        [] cl = "SupertypesSubstituted" -> o.exc = "" /\ o.res # <<>> /\ ~SupersOK(CT, prev, o, Range1(o.supers))
        [] cl = "SubstLaws"    -> o.exc = "" /\ o.res # <<>> /\ ~SubstLaws(prev, o, o.res[1])
        [] cl = "VariableFree" -> o.exc = "" /\ o.res # <<>> /\ ~TVFreeOK(o, o.res[1])
        [] cl = "Immutable"    -> o.changed # <<>>
+       \* substituting with the empty map returns a type the system itself considers equal
+       [] cl = "EmptySubstEqual" -> o.op = "subst" /\ o.exc = "" /\ DOMAIN o.sigma = {} /\ ~o.eq
+       \* a variable that survives a substitution, and every variable of a self type, keeps its declared variance
+       [] cl = "VarianceKept" -> \/ o.op = "subst" /\ o.exc = "" /\ ~(vv \subseteq vvs[o.r])
+                                 \/ o.op = "self" /\ o.exc = "" /\ vv # {<<CT[o.c].tp[j].n, CT[o.c].tp[j].v>> : j \in DOMAIN CT[o.c].tp}
        [] cl = "MeaningKept"  -> o.op = "issub" /\ o.answer # <<>> /\ <<prev[o.r], prev[o.r2]>> \in DOMAIN prevAnswers
                                  /\ prevAnswers[<<prev[o.r], prev[o.r2]>>] # o.answer[1]}
 \* the pre-state is reconstructed from the current one: results without the last element
